@@ -52,7 +52,13 @@ def rule_case(make_ruleset, tmpl, kinds, V, make_layer, dom=None, mkworld=None, 
     def spec(w, c, env):
         layer = make_layer(seeds, c[rank:])
         return w.derive(layer, lambda w2: den(w2, o, c[:rank], env))
-    mk = mkworld or (lambda symbolic, valuation: World(symbolic=symbolic, complex_mode=False, valuation=valuation))
+    indep = {a._name for a, kd in zip(ops, kinds) if kd != "opq"}
+
+    def mk0(symbolic, valuation):
+        w = (mkworld(symbolic, valuation) if mkworld else World(symbolic=symbolic, complex_mode=False, valuation=valuation))
+        w.spatial_const = set(w.spatial_const) | indep      # operands declared independent of the variable
+        return w
+    mk = mk0
     return check_same(mk, r, spec, o.ufl_shape + V, o.ufl_free_indices, o.ufl_index_dimensions, timeout_ms=tmo, what=tag)
 
 
